@@ -21,6 +21,8 @@ class GenericSpecifier(BaseSpecifier):
         "!=": operator.ne,
         "in": lambda lhs, rhs: lhs in rhs,
         "not in": lambda lhs, rhs: lhs not in rhs,
+        "contains": lambda lhs, rhs: rhs in lhs,
+        "not contains": lambda lhs, rhs: rhs not in lhs,
         ">": operator.gt,
         ">=": operator.ge,
         "<": operator.lt,
@@ -40,6 +42,8 @@ class GenericSpecifier(BaseSpecifier):
             "!=": "==",
             "not in": "in",
             "in": "not in",
+            "contains": "not contains",
+            "not contains": "contains",
             "<": ">=",
             "<=": ">",
             ">": "<=",
